@@ -302,18 +302,34 @@ type Result struct {
 	// key buffers handed to the implementation during the current op (see CallerKey)
 	callerKeys [][]byte
 	freeKeys   [][]byte
+	shared     []byte
 }
 
-// CallerKey returns a private copy of k to be passed to the implementation as a key. The copy is a buffer the CALLER owns: Scribble
-// overwrites it once the call has returned, as a caller that builds all its keys in one reused buffer would. An API taking []byte keys
-// must not keep a reference to them; an implementation that aliases the caller's buffer (unsafe.String, storing the slice) then sees its
-// stored key change and the next observations differ. Values are not treated this way: several components retain value slices by design.
+// CallerKey returns a copy of k in a buffer the CALLER owns, to be passed to the implementation as the key of ONE call. The caller is the
+// kind that builds all its keys in one buffer: the next CallerKey overwrites the same memory with the next key (the previous call has
+// returned by then), and Scribble fills it with garbage between two operations. An API taking []byte keys must not keep a reference to
+// them; an implementation that aliases the caller's buffer (unsafe.String, storing or memoising the slice) then sees its stored key
+// turn into another valid key or into garbage, and the next observations differ. Values are not treated this way: several components
+// retain value slices by design.
 func (r *Result) CallerKey(k []byte) []byte {
 	if k == nil {
 		return nil
 	}
-	// the memory of a buffer handed out for an EARLIER call is used again when it is large enough: the caller encodes its next key
-	// in place, so a reference kept by the implementation now reads another valid key, not garbage
+	if cap(r.shared) < len(k) {
+		for i := range r.shared {
+			r.shared[i] ^= 0xA5
+		}
+		r.shared = make([]byte, 0, len(k)+16)
+	}
+	r.shared = append(r.shared[:0], k...)
+	return r.shared
+}
+
+// CallerKeyKept is CallerKey for calls that take SEVERAL keys at once: every key gets a buffer of its own, valid until the next Scribble.
+func (r *Result) CallerKeyKept(k []byte) []byte {
+	if k == nil {
+		return nil
+	}
 	var c []byte
 	for i := len(r.freeKeys) - 1; i >= 0; i-- {
 		if cap(r.freeKeys[i]) >= len(k) {
@@ -329,15 +345,19 @@ func (r *Result) CallerKey(k []byte) []byte {
 	return c
 }
 
-// Scribble overwrites every buffer handed out by CallerKey since the last call; the buffers are then free to carry the keys of later calls.
+// Scribble overwrites every buffer handed out since the last call; the memory is used again for the keys of later calls.
 func (r *Result) Scribble() {
+	for i := range r.shared {
+		r.shared[i] ^= 0xA5
+	}
 	for _, k := range r.callerKeys {
 		for i := range k {
 			k[i] ^= 0xA5
 		}
-		if len(r.freeKeys) < 6 {
-			r.freeKeys = append(r.freeKeys, k)
-		}
+		r.freeKeys = append(r.freeKeys, k)
+	}
+	if n := len(r.freeKeys); n > 8 {
+		r.freeKeys = append(r.freeKeys[:0], r.freeKeys[n-8:]...)
 	}
 	r.callerKeys = r.callerKeys[:0]
 }
